@@ -1,6 +1,12 @@
 package formula
 
-import "context"
+import (
+	"context"
+	"strconv"
+	"strings"
+
+	"github.com/ericlagergren/decimal"
+)
 
 func init() {
 	vpHarnesses["VP_C08_pool"] = VP_C08_pool
@@ -8,20 +14,54 @@ func init() {
 	vpHarnesses["VP_C08_eval"] = VP_C08_eval
 }
 
-func vpUnrelatedWork() {
-	// parse and evaluate unrelated formulas (with assignments, errors and builtins) in between
+// vpUnrelatedWork parses, evaluates and analyses unrelated formulas (with
+// assignments, errors, builtins, and texts that are rejected part-way) and
+// returns a digest of everything it observed: the digest itself must not depend
+// on what ran before ("regardless of which other formulas were parsed or
+// evaluated before or in between").
+func vpUnrelatedWork() string {
+	digest := ""
 	for _, f := range []string{"$z = 1 + 2, [$z, abs(-1)]", "1 +", "q.r.s == null ? 'a' : left('xyz', 1)", "[roundBank(3.5), ceil(1.2), 7 / 2, 7 % 2, round(2.5)]",
 		"regexp('abc', 'b+') ? regexp('x', '(') : 0", "toString(1.50) + lpad('a', '0', 3) + join(['a', 'b'], ',')",
-		"[toInt(7.25), -(2.5), abs(-9.75), round(0.125), ceil(7.25)]"} {
+		"[toInt(7.25), -(2.5), abs(-9.75), round(0.125), ceil(7.25)]",
+		"(1 2", "ok1 + 1", "1 + ) 2", "[ok2]", "f(a, (b c", "ok3", "[1 2", "1 2", "'open", "ok4 . k"} {
 		code, err := ParseSourceCode([]byte(f))
 		if err != nil {
+			digest += "E:" + err.Error() + ";"
 			continue
 		}
 		r := NewRunner()
 		r.SetThis(map[string]interface{}{"q": map[string]interface{}{}})
-		r.Resolve(context.Background(), code.Expression)
-		ResolveReferenceFields(code)
+		v, rerr := r.Resolve(context.Background(), code.Expression)
+		fs, ferr := ResolveReferenceFields(code)
+		digest += "V:" + vpShowValue(v) + "/" + vpErrText2(rerr) + "/" + strings.Join(fs, ",") + "/" + vpErrText2(ferr) + ";"
 	}
+	return digest
+}
+
+func vpShowValue(v interface{}) string {
+	switch t := v.(type) {
+	case nil:
+		return "null"
+	case bool:
+		if t {
+			return "true"
+		}
+		return "false"
+	case string:
+		return "s:" + t
+	case float64:
+		return "f:" + strconv.FormatFloat(t, 'g', -1, 64)
+	case *decimal.Big:
+		return "n:" + t.String()
+	case []interface{}:
+		s := "["
+		for _, e := range t {
+			s += vpShowValue(e) + ","
+		}
+		return s + "]"
+	}
+	return "?"
 }
 
 func vpErrText2(err error) string {
@@ -36,10 +76,12 @@ func vpErrText2(err error) string {
 func VP_C08_parse() {
 	L := vpParam("L")
 	text := vpBytes("t", L)
+	base := vpUnrelatedWork() // in the fresh process state
 	vpFreezeGlobals()
 	a, errA := ParseSourceCode(text)
-	vpUnrelatedWork()
+	mid := vpUnrelatedWork()
 	b, errB := ParseSourceCode(append([]byte(nil), text...))
+	vpAssert("C08/parse/unrelated-work-unaffected", base == mid)
 	vpAssert("C08/parse/same-verdict", (errA == nil) == (errB == nil))
 	if errA != nil && errB != nil {
 		vpAssert("C08/parse/same-error", vpErrText2(errA) == vpErrText2(errB))
@@ -107,6 +149,7 @@ var vpC08Pool = []string{
 // with the unrelated work (which itself rounds, divides and compiles patterns)
 // in between, give the same value or the same error every time.
 func VP_C08_pool() {
+	base := vpUnrelatedWork() // in the fresh process state
 	text := vpC08Pool[vpChoice("f", len(vpC08Pool))]
 	s := vpSymString("s", 1)
 	code, err := ParseSourceCode([]byte(text))
@@ -122,8 +165,10 @@ func VP_C08_pool() {
 		return v, vpErrText2(e)
 	}
 	v1, e1 := eval()
-	vpUnrelatedWork()
+	w1 := vpUnrelatedWork()
 	v2, e2 := eval()
+	w2 := vpUnrelatedWork()
+	vpAssert("C08/pool/unrelated-work-same-every-time", w1 == w2 && w1 == base)
 	v3, e3 := eval()
 	vpObserve("pool", text, e1 != "", e2 != "", e3 != "")
 	vpAssert("C08/pool/same-verdict-every-time", (e1 == "") == (e2 == "") && (e2 == "") == (e3 == ""))
